@@ -30,6 +30,8 @@ type evElem struct {
 	Sep  int       `json:"sep"` // list: separator terminal + 1, 0 if none
 	Plus bool      `json:"plus"`
 	Name string    `json:"name"` // arrow: node name
+	Name1 string   `json:"name1"` // twin: node of the first list
+	Name2 string   `json:"name2"` // twin: node of the second list
 }
 
 type evRule struct {
@@ -130,6 +132,11 @@ func (g *evGen) elem(d int) *evElem {
 			e.Sub = append(e.Sub, g.headed(d-1))
 		}
 		return e
+	case x < 11 && r.Intn(2) == 0:
+		// twin lists: structurally identical elements reported as different nodes: (x -> A)+ y (x -> B)+
+		x, y := g.term(), g.term()
+		n1, n2 := g.node(), g.node()
+		return &evElem{K: "twin", T: x.T, Sep: y.T + 1, Name: n1 + " " + n2, Name1: n1, Name2: n2}
 	default:
 		e := &evElem{K: "list", Plus: r.Intn(2) == 0, Sub: []*evElem{g.headed(d - 1)}}
 		if r.Intn(2) == 0 {
@@ -156,6 +163,9 @@ func (e *evElem) render() string {
 			p = append(p, s.renderBody())
 		}
 		return "(" + strings.Join(p, " | ") + ")"
+	case "twin":
+		n := strings.Fields(e.Name)
+		return "(" + arTerm(e.T) + " -> " + n[0] + ")+ " + arTerm(e.Sep-1) + " (" + arTerm(e.T) + " -> " + n[1] + ")+"
 	case "list":
 		q := "*"
 		if e.Plus {
@@ -170,7 +180,7 @@ func (e *evElem) render() string {
 }
 
 func (e *evElem) renderBody() string {
-	if e.K == "seq" {
+	if e.K == "seq" && len(e.Sub) > 0 {
 		var p []string
 		for _, s := range e.Sub {
 			p = append(p, s.render())
@@ -182,7 +192,7 @@ func (e *evElem) renderBody() string {
 
 func (e *evElem) renderPrimary() string {
 	switch e.K {
-	case "opt", "list":
+	case "opt", "list", "twin":
 		return "(" + e.render() + ")"
 	}
 	return e.render()
@@ -204,6 +214,14 @@ func (e *evElem) sample(r *rand.Rand, out *[]int) {
 		}
 	case "alt":
 		e.Sub[r.Intn(len(e.Sub))].sample(r, out)
+	case "twin":
+		for i := 0; i < 1+r.Intn(3); i++ {
+			*out = append(*out, e.T)
+		}
+		*out = append(*out, e.Sep-1)
+		for i := 0; i < 1+r.Intn(3); i++ {
+			*out = append(*out, e.T)
+		}
 	case "list":
 		n := r.Intn(4)
 		if e.Plus && n == 0 {
@@ -219,7 +237,7 @@ func (e *evElem) sample(r *rand.Rand, out *[]int) {
 }
 
 func (e *evElem) rewrite(tr func(int) int) {
-	if e.K == "sym" {
+	if e.K == "sym" || e.K == "twin" {
 		e.T = tr(e.T)
 	}
 	if e.Sep > 0 {
